@@ -16,9 +16,9 @@ import (
 var c16Violations = []string{
 	"missing-table", "missing-key", "negative-limit", "keys-and-count-only", "min-mod-revision", "max-mod-revision", "min-create-revision", "max-create-revision",
 	"key-1025", "key-4096", "value-2mib+1", "unknown-table", "follower-table-create", "follower-table-delete", "create-empty-name", "delete-empty-name",
-	"empty-oneof", "range-end-1025",
+	"empty-oneof", "range-end-1025", "key-1025-with-range-end",
 	// valid boundary cases: must be accepted
-	"ok-key-1024", "ok-value-2mib",
+	"ok-key-1024", "ok-value-2mib", "ok-huge-limit",
 }
 
 var c16Methods = []string{"range", "iterate", "put", "delete", "txn"}
@@ -120,6 +120,23 @@ func (r *run) buildRaw(n *Node, st *Step) (call func(ctx context.Context) error,
 		key = bigBytes(1025, 'k')
 	case "key-4096":
 		key = bigBytes(4096, 'k')
+	case "key-1025-with-range-end":
+		key = bigBytes(1025, 'k')
+		rangeEnd = []byte{0}
+		if st.K%2 == 0 {
+			rangeEnd = []byte("zzzz")
+		}
+		if method == "put" {
+			method = "delete"
+		}
+	case "ok-huge-limit":
+		// a huge limit is a valid request
+		limit, valid = []int64{1 << 62, 9223372036854775807, 1 << 45}[st.K%3], true
+		key, rangeEnd = []byte{0}, []byte{0}
+		if method != "iterate" {
+			method = "range"
+		}
+		nested = false
 	case "range-end-1025":
 		rangeEnd = bigBytes(1025, 'z')
 		if method == "put" {
